@@ -1720,7 +1720,13 @@ class Scheduler:
         # List of task whose states have changed.
         updated_task_list = [
             t for t in self.pool.get_tasks() if t.state.is_updated]
-        has_updated = updated_task_list or self.is_updated
+        has_updated = (
+            updated_task_list
+            or self.is_updated
+            # (a task that completed and left the pool is not in the list)
+            or self.pool.tasks_removed
+        )
+        self.pool.tasks_removed = False
 
         if updated_task_list and self.is_restart_timeout_wait:
             # Stop restart timeout if action has been triggered.
